@@ -109,6 +109,20 @@ Definition with_topics (sv : server) (ts : list topic) : server :=
 (* ---------- requests and responses ---------- *)
 Definition raw_msg := (str * list (str * str))%type.
 
+(* What the push endpoint does with one POST: answers with a status, or fails
+   (connection refused / reset / no answer: reqwest reports an error). *)
+Inductive outcome :=
+| OStatus (c : N)   (* the endpoint answered with this status *)
+| OReset            (* the connection was closed without an answer *)
+| ORefused          (* nothing listens at the endpoint *)
+| OHang.            (* no answer at all: the dispatch stays pending *)
+
+Definition accepted (o : outcome) : bool :=
+  match o with
+  | OStatus c => existsb (N.eqb c) [102; 200; 201; 202; 204]
+  | _ => false
+  end.
+
 Inductive req :=
 | RCreateTopic (n : str)
 | RGetTopic (n : str)
@@ -131,7 +145,8 @@ Inductive req :=
 | RStreamClose (sid : N)
 | RStreamRead (sid : N)
 | RPullBg (opid : N) (sub : str) (max : Z)     (* a Pull without return_immediately, left running *)
-| RJoin (opid : N).                            (* the result of a background Pull, if it completed *)
+| RJoin (opid : N)                             (* the result of a background Pull, if it completed *)
+| RPushSub (sub : name) (script : list outcome). (* one push pass over one registered subscription *)
 
 (* A subscription resource as returned by Create/Get/List. *)
 Record subres := { r_name : str; r_topic : str; r_ackdl : N; r_push : option str }.
@@ -150,6 +165,7 @@ Inductive resp :=
 | PStream (resps : list (list lease)) (term : option N)
 | PPending
 | PJoined (r : N + list lease)   (* outcome of a background Pull: error code or messages *)
+| PPushed (posts : list (lease * outcome))   (* the POSTs of one pass and what the endpoint did *)
 | PNone.
 
 (* ---------- internal work until quiescence ---------- *)
@@ -681,6 +697,27 @@ Definition handle (sv : server) (r : req) : server * resp * (N -> bool) :=
               (with_cons sv (park (s_uid s) (CPull opid (as_u16 max) (now + pull_limit_ns)) (sv_cons sv)),
                PNone, touch1 (s_uid s))
           end
+      end
+  | RPushSub sn script =>
+      (* pull_and_dispatch_messages: pull up to 1000, POST each message, ack on an accepted status,
+         otherwise nack (the message is back in the queue at once, for the next pass) *)
+      match find_sub sn (sv_subs sv) with
+      | None => (sv, PPushed [], no_touch)
+      | Some s =>
+          let ls := snd (sub_pull 1000 now s) in
+          let posts := combine ls (script ++ repeat (OStatus 200) (length ls)) in
+          let settle_one (x : sub) (p : lease * outcome) :=
+            match snd p with
+            | OHang => x            (* neither acked nor nacked: the lease runs to its deadline *)
+            | o => if accepted o then sub_ack [l_ack (fst p)] x else sub_modify [(l_ack (fst p), None)] x
+            end in
+          (with_subs sv (upd_sub (s_uid s)
+                           (fun s0 => fold_left settle_one
+                                        (combine (snd (sub_pull 1000 now s0))
+                                                 (script ++ repeat (OStatus 200) (length (snd (sub_pull 1000 now s0)))))
+                                        (fst (sub_pull 1000 now s0)))
+                           (sv_subs sv)),
+           PPushed posts, touch1 (s_uid s))
       end
   | RJoin opid =>
       match alookup N.eqb opid (c_done (sv_cons sv)) with
